@@ -1,5 +1,6 @@
 """Run the Rust proptest runner (E2: rsprop inside the mirror crate) and merge its results into a Reporter."""
 import json
+import os
 import subprocess
 import time
 
@@ -12,6 +13,8 @@ def run_rs_part(rep, tier, pid, required=False):
     """required=True: a harness that cannot be built makes the whole check inconclusive (C15/C16, which have no
     complete E1 counterpart); otherwise the E2 part is reported as unavailable and the verdict comes from E1."""
     t0 = time.time()
+    if os.environ.get("VERIF_PKG_OVERRIDE"):
+        return  # Python-layer mutation self-test: the Rust side is the unchanged tree's
     try:
         bins = build.ensure_mirror()
     except build.BuildError as e:
